@@ -194,6 +194,9 @@ package roundrobin
 //@   requires req != nil
 //@   modifies everything
 //@   ensures one_outcome: calls(r.next.ServeHTTP) + calls(r.errHandler.ServeHTTP) == 1
+//@   ensures {C20} writes_nothing_itself: calls(w.WriteHeader) == 0 && calls(w.Write) == 0
+//@   ensures {C20} refusal_is_the_handlers: calls(r.errHandler.ServeHTTP) == 1 ==> callarg(r.errHandler.ServeHTTP, 0, 0) == w && callarg(r.errHandler.ServeHTTP, 0, 1) == req
+//@   at_call r.next.ServeHTTP {C20} same_writer_copied_request: arg0 == w && arg1 != req
 //@   ensures error_only_without_server: calls(r.errHandler.ServeHTTP) == 1 ==> calls(NextServer) == 1 && callres(NextServer, 0, 1) != nil
 //@   at_call r.next.ServeHTTP routed_to_selection: (calls(NextServer) == 1 && callres(NextServer, 0, 1) == nil && arg1.URL == callres(NextServer, 0, 0)) || (calls(NextServer) == 0 && callres(GetBackend, 0, 1) && sameID(arg1.URL, callres(GetBackend, 0, 0)))
 //@   at_call r.next.ServeHTTP {C02,C09,C11,C20} fresh_url: fresh(arg1.URL)
